@@ -95,6 +95,8 @@ struct World {
 	// ---- S9 stdout
 	int stdout_fd = -1;     // memfd that replaced fd 1 (or -1 when not captured)
 	off_t stdout_seen = 0;
+	bool stdin_captured = false;
+	uint64_t poll_stdin(); // bytes the process read from its standard input since the last poll
 
 	void reset_run();       // forget everything (after the image restart freed the blocks)
 	void begin_op(int op_index);
@@ -112,6 +114,6 @@ void image_restore_all();
 void image_restore_scanner();
 size_t image_bytes();
 
-void capture_stdout();  // redirect fd 1 to a memfd
+void capture_stdout();  // redirect fd 1 to a memfd, fd 0 to a memfd full of sentinel text
 
 } // namespace sim
